@@ -22,7 +22,8 @@ def instances(cxx14=False):
         for r in (1, 2, 3):
             for sp in (2, 3, 4):
                 add('lpad', t, [None] * r, sp); add('rpad', t, [None] * r, sp)
-    spats = [(3,), (3, None), (None, 4), (2, 4), (0, None), (2, None, 3), (None, 3, None), (4, 2, 3), (5, 3), (3, 5), (6, None, 4)]
+    spats = [(3,), (3, None), (None, 4), (2, 4), (0, None), (2, None, 3), (None, 3, None), (4, 2, 3), (5, 3), (3, 5), (6, None, 4),
+             (0,), (4, 0), (None, 0), (0, 3), (2, None, 0), (None, 0, 2)]      # static zero extents in every position relative to the dynamic ones
     for t in ('i32', 'u16', 'i64'):
         for pat in spats:
             for k in ('left', 'right', 'stride'): add(k, t, pat)
